@@ -51,6 +51,27 @@ static bool g_orders = false;
 static bool g_dfs = false;
 static long g_starved = 0;
 
+// bounded-preemption DFS made fair towards threads that spin WITH writes and without a pause (queuing_rw_mutex's `goto retry`
+// loops never park): after 60 consecutive steps of one thread while others are runnable the next runnable thread is
+// scheduled (deterministically, so the enumeration stays replayable; not counted as a preemption)
+struct FairDfs : verif::DfsSchedule {
+    int last = -1; long streak = 0;
+    std::vector<size_t> lastrun;
+    explicit FairDfs(int b) : verif::DfsSchedule(b) {}
+    int pick(int cur, const std::vector<int>& en, size_t step) override {
+        if (step == 0) { last = -1; streak = 0; lastrun.assign(64, 0); }
+        int t = -1;
+        if (cur >= 0 && cur == last && ++streak > 60 && en.size() > 1) {
+            // forced switch to the runnable thread that has not run for the longest time
+            for (int x : en) if (x != cur && (t < 0 || lastrun[x] < lastrun[t])) t = x;
+        }
+        if (t < 0) t = verif::DfsSchedule::pick(cur, en, step);
+        if (t != last) { last = t; streak = 0; }
+        lastrun[t] = step + 1;
+        return t;
+    }
+};
+
 static bool run_once(verif::Schedule& sch, int run_idx, bool print) {
     QRW m;
     size_t T = g_progs.size();
@@ -129,12 +150,15 @@ static bool run_once(verif::Schedule& sch, int run_idx, bool print) {
         }
         if (held != NONE) { eff[t].push_back("release"); do_release(); }
     });
-    verif::Result r = verif::run(bodies, sch, g_dfs ? 20000 : 2000000);
+    verif::Result r = verif::run(bodies, sch, g_dfs ? 50000 : 2000000);
     // step limit hit with nobody parked: a thread that spins WITH writes and without a pause (queuing_rw_mutex's `goto retry` loops)
     // was never preempted by the bounded-preemption enumeration — an unfair schedule, not a lost hand-off.  Skip it in DFS mode
     // (the stuck OS threads are leaked, parked for ever); under the fair random schedules it is reported.
     bool starved = r.deadlock && r.parked.empty();
-    if (starved && g_dfs) { g_starved++; return true; }
+    if (starved && g_dfs) {
+        printf("starved-sched"); for (size_t i = 0; i < r.schedule.size() && i < 6000; ++i) printf(" %d", r.schedule[i]);
+        printf("\nsummary runs=%d bad=0 starved=1\n", run_idx); fflush(stdout); _exit(4);
+    }
     bool ok = g.err.empty() && !r.deadlock;
     if (print || !ok) {
         printf("run %d\n", run_idx);
@@ -197,6 +221,10 @@ int main(int argc, char** argv) {
     verif::init_determinism(argc, argv);
     if (argc < 3) return 2;
     if (getenv("C08_ORDERS")) g_orders = true;
+    {   // warm-up outside the scheduler: libtbb's one-time initialisation (speculation_enabled() etc.) must not happen inside
+        // the first controlled run, or the runs of one process would not be comparable / replayable
+        QRW wm; QRW::scoped_lock wl; do_acquire(wl, wm, true); wl.release();
+    }
     char line[1024];
     while (fgets(line, sizeof line, stdin)) {
         std::istringstream is(line); std::string w; is >> w;
@@ -212,7 +240,7 @@ int main(int argc, char** argv) {
         for (long i = 0; i < maxruns; ++i) { verif::RandomSchedule s(seed * 7919 + i, 64 + (int)(i % 3) * 64); if (!run_once(s, (int)i, true)) bad++; runs++; }
     } else if (mode == "dfs") {
         g_dfs = true;
-        verif::DfsSchedule d(atoi(argv[2]));
+        FairDfs d(atoi(argv[2]));
         do { if (!run_once(d, (int)runs, false)) { bad++; break; } runs++; } while (runs < maxruns && d.next());
     } else if (mode == "replay") {
         verif::ReplaySchedule s; std::stringstream ss(argv[2]); std::string tok;
